@@ -225,3 +225,270 @@ Proof.
   exists ls, ls2. split; [exact Hp|]. split; [exact Hp2|]. split; [exact Hn|]. split; [exact Hn2|]. split; [rewrite name_rec_bytes; reflexivity|].
   apply name_rec_ok; try assumption; try lia. unfold CLASS_IN; lia.
 Qed.
+
+(** ** MX records: a 16-bit preference, then one name *)
+Definition mx_rec (ls : list bytes) (c ttl pref : N) (ls2 : list bytes) : rec_view * rd_view :=
+  ({| rv_off := 0; rv_labels := ls; rv_name_end := length (wire_of_labels ls); rv_type := TYPE_MX; rv_class := c; rv_ttl := ttl;
+      rv_rdlen := 2 + length (wire_of_labels ls2) |}, RdMx (be16_bytes pref) ls2).
+
+Lemma mx_rec_bytes ls c ttl pref ls2 :
+  plain_record (mx_rec ls c ttl pref ls2) =
+  wire_of_labels ls ++ be16_bytes TYPE_MX ++ be16_bytes c ++ be32_bytes ttl ++ be16_bytes (N.of_nat (length (be16_bytes pref ++ wire_of_labels ls2))) ++
+  be16_bytes pref ++ wire_of_labels ls2.
+Proof. reflexivity. Qed.
+
+Theorem mx_rec_ok ls c ttl pref ls2 :
+  Forall label_ok ls -> length (wire_of_labels ls) <= 255 -> bytes_ok (wire_of_labels ls) ->
+  Forall label_ok ls2 -> length (wire_of_labels ls2) <= 255 -> bytes_ok (wire_of_labels ls2) ->
+  (c < 65536)%N -> (ttl < 4294967296)%N ->
+  plain_rr_ok (mx_rec ls c ttl pref ls2).
+Proof.
+  intros Hls H255 Hbw Hls2 H255b Hbw2 Hc Httl.
+  set (t := TYPE_MX). assert (Ht : (t < 65536)%N) by (unfold t, TYPE_MX; lia).
+  set (W := wire_of_labels ls) in *. set (D := wire_of_labels ls2) in *. set (P := be16_bytes pref).
+  assert (LP : length P = 2) by reflexivity.
+  assert (HD1 : 1 <= length D) by (unfold D, wire_of_labels; rewrite app_length; cbn [length]; lia).
+  assert (LPD : length (P ++ D) = 2 + length D) by (rewrite app_length, LP; reflexivity).
+  assert (Hlen : (N.of_nat (length (P ++ D)) < 65536)%N) by lia.
+  split; [reflexivity|].
+  split.
+  { rewrite mx_rec_bytes. fold W D P t. repeat (apply bytes_ok_app; [first [assumption|apply bytes_ok_be16|apply bytes_ok_be32]|]). exact Hbw2. }
+  intros sec seen pre post. cbv zeta. rewrite mx_rec_bytes. fold W D P t. cbn [fst snd].
+  set (L := be16_bytes (N.of_nat (length (P ++ D)))).
+  set (q := pre ++ (W ++ be16_bytes t ++ be16_bytes c ++ be32_bytes ttl ++ L ++ P ++ D) ++ post).
+  set (ne := length pre + length W).
+  assert (Hq : q = pre ++ W ++ (be16_bytes t ++ be16_bytes c ++ be32_bytes ttl ++ L ++ P ++ D ++ post))
+    by (unfold q; rewrite <- !app_assoc; reflexivity).
+  assert (Hcn : cname_l q (length pre) ls ne) by (rewrite Hq; apply cname_l_mid; assumption).
+  assert (U_t : u16_at q ne t).
+  { replace q with ((pre ++ W) ++ be16_bytes t ++ (be16_bytes c ++ be32_bytes ttl ++ L ++ P ++ D ++ post))
+      by (unfold q; rewrite <- !app_assoc; reflexivity).
+    replace ne with (length (pre ++ W)) by (rewrite app_length; reflexivity). apply u16_at_mid; exact Ht. }
+  assert (U_c : u16_at q (ne + 2) c).
+  { replace q with ((pre ++ W ++ be16_bytes t) ++ be16_bytes c ++ (be32_bytes ttl ++ L ++ P ++ D ++ post))
+      by (unfold q; rewrite <- !app_assoc; reflexivity).
+    replace (ne + 2) with (length (pre ++ W ++ be16_bytes t)) by (rewrite !app_length; cbn [length be16_bytes]; unfold ne; lia). apply u16_at_mid; exact Hc. }
+  assert (U_ttl : u32_at q (ne + 4) ttl).
+  { replace q with ((pre ++ W ++ be16_bytes t ++ be16_bytes c) ++ be32_bytes ttl ++ (L ++ P ++ D ++ post))
+      by (unfold q; rewrite <- !app_assoc; reflexivity).
+    replace (ne + 4) with (length (pre ++ W ++ be16_bytes t ++ be16_bytes c)) by (rewrite !app_length; cbn [length be16_bytes]; unfold ne; lia). apply u32_at_mid; exact Httl. }
+  assert (U_l : u16_at q (ne + 8) (N.of_nat (length (P ++ D)))).
+  { replace q with ((pre ++ W ++ be16_bytes t ++ be16_bytes c ++ be32_bytes ttl) ++ L ++ (P ++ D ++ post))
+      by (unfold q; rewrite <- !app_assoc; reflexivity).
+    replace (ne + 8) with (length (pre ++ W ++ be16_bytes t ++ be16_bytes c ++ be32_bytes ttl)) by (rewrite !app_length; cbn [length be16_bytes be32_bytes]; unfold ne; lia).
+    apply u16_at_mid; exact Hlen. }
+  assert (LL : length L = 2) by reflexivity.
+  assert (Hdn : cname_l q (ne + 10 + 2) ls2 (ne + 10 + 2 + length D)).
+  { replace q with ((pre ++ W ++ be16_bytes t ++ be16_bytes c ++ be32_bytes ttl ++ L ++ P) ++ D ++ post)
+      by (unfold q; rewrite <- !app_assoc; reflexivity).
+    replace (ne + 10 + 2) with (length (pre ++ W ++ be16_bytes t ++ be16_bytes c ++ be32_bytes ttl ++ L ++ P))
+      by (rewrite !app_length, LL, LP; cbn [length be16_bytes be32_bytes]; unfold ne; lia).
+    apply cname_l_mid; assumption. }
+  assert (Lq : length q = ne + 10 + 2 + length D + length post).
+  { unfold q, ne. rewrite !app_length, LL, LP. cbn [length be16_bytes be32_bytes]. lia. }
+  assert (Le : length pre + length (W ++ be16_bytes t ++ be16_bytes c ++ be32_bytes ttl ++ L ++ P ++ D) = ne + 10 + (2 + length D)).
+  { unfold ne. rewrite !app_length, LL, LP. cbn [length be16_bytes be32_bytes]. lia. }
+  rewrite Le.
+  split.
+  { exists ne, t, (N.of_nat (length (P ++ D))). split; [exists ls; exact Hcn|]. split; [lia|]. split; [exact U_t|]. split; [exact U_l|].
+    rewrite Nat2N.id, LPD. split; [reflexivity|]. split; [lia|]. change ((t =? TYPE_OPT)%N) with false. cbv iota. split; [reflexivity|].
+    unfold rdata_wf. change (is_name_type t) with false. change ((t =? TYPE_MX)%N) with true. cbv iota.
+    split; [lia|]. exists ls2. replace (ne + 10 + (2 + length D)) with (ne + 10 + 2 + length D) by lia. exact Hdn. }
+  split.
+  { unfold record_at, rv_at, mx_rec. cbn [fst snd rv_off rv_labels rv_name_end rv_type rv_class rv_ttl rv_rdlen plain_rdata]. fold W D P t. fold ne.
+    rewrite LPD. split; [exact Hcn|]. split; [exact U_t|]. split; [exact U_c|]. split; [exact U_ttl|].
+    split; [rewrite <- LPD; exact U_l|]. split; [reflexivity|]. split; [lia|]. split; intros E; discriminate E. }
+  unfold rdata_at, rv_at, mx_rec. cbn [fst snd rv_off rv_labels rv_name_end rv_type rv_class rv_ttl rv_rdlen plain_rdata]. fold W D P t. fold ne.
+  rewrite LPD. split; [reflexivity|]. split; [reflexivity|]. split; [lia|].
+  split.
+  - replace q with ((pre ++ W ++ be16_bytes t ++ be16_bytes c ++ be32_bytes ttl ++ L) ++ P ++ (D ++ post))
+      by (unfold q; rewrite <- !app_assoc; reflexivity).
+    replace (ne + 10) with (length (pre ++ W ++ be16_bytes t ++ be16_bytes c ++ be32_bytes ttl ++ L))
+      by (rewrite !app_length, LL; cbn [length be16_bytes be32_bytes]; unfold ne; lia).
+    rewrite skipn_app_exact. symmetry. replace 2 with (length P) by exact LP. apply firstn_app_exact.
+  - replace (ne + 10 + (2 + length D)) with (ne + 10 + 2 + length D) by lia. exact Hdn.
+Qed.
+
+Lemma text_to_labels raw txt w : copy_raw_name_from_str raw txt None = Ok w ->
+  exists l, Forall label_ok l /\ w = raw ++ wire_of_labels l /\ length (wire_of_labels l) <= 253 /\ bytes_ok (wire_of_labels l) /\
+            (txt = dotted l \/ txt = dots l \/ (txt = [46%N] /\ l = [])).
+Proof.
+  intros Hw. destruct (from_str_sound raw txt None w Hw) as (l & Htl & Hcase).
+  assert (Hp : Forall label_ok l) by (eapply Forall_impl; [|exact Htl]; intros x Hx; apply tlabel_label_ok; exact Hx).
+  exists l. split; [exact Hp|].
+  assert (Hb : bytes_ok (wire_of_labels l)).
+  { apply bytes_ok_wire; [exact Hp|]. eapply Forall_impl; [|exact Htl]. intros x (_ & _ & Hok). unfold bytes_ok.
+    clear -Hok. induction x as [|c0 x IH]; [constructor|]. cbn [forallb] in Hok. apply andb_true_iff in Hok. destruct Hok as [Hc0 Hl0].
+    constructor; [unfold text_char_ok in Hc0; lia|exact (IH Hl0)]. }
+  destruct Hcase as [(Hne & Hn & Hw1 & Hl)|(Hn & Hw1 & Hl)].
+  - cbn [zone_or_root] in Hw1, Hl. unfold wire_of_labels. auto 6.
+  - split; [exact Hw1|]. split; [exact Hl|]. split; [exact Hb|]. destruct Hn as [Hn|Hn]; auto.
+Qed.
+
+Theorem build_mx_is_plain_record : forall name ttl pref mxhost rr,
+  build_mx name ttl pref mxhost = Ok rr -> (ttl < 4294967296)%N ->
+  exists ls ls2, Forall label_ok ls /\ Forall label_ok ls2 /\
+    (name = dotted ls \/ name = dots ls \/ (name = [46%N] /\ ls = [])) /\
+    (mxhost = dotted ls2 \/ mxhost = dots ls2 \/ (mxhost = [46%N] /\ ls2 = [])) /\
+    rr = plain_record (mx_rec ls CLASS_IN ttl pref ls2) /\ plain_rr_ok (mx_rec ls CLASS_IN ttl pref ls2).
+Proof.
+  intros name ttl pref mxhost rr H Httl. unfold build_mx in H.
+  destruct (copy_raw_name_from_str (be16_bytes pref) mxhost None) as [rd| |] eqn:Er; cbn [bind] in H; try discriminate.
+  unfold rr_new in H. destruct (65535 <? N.of_nat (length rd))%N eqn:El; [discriminate|].
+  destruct (copy_raw_name_from_str [] name None) as [pk| |] eqn:Ew; cbn [bind] in H; try discriminate. inversion H; subst rr. clear H.
+  destruct (text_to_labels [] name pk Ew) as (ls & Hp & Epk & Hl & Hb & Hn). cbn [app] in Epk. subst pk.
+  destruct (text_to_labels _ mxhost rd Er) as (ls2 & Hp2 & -> & Hl2 & Hb2 & Hn2).
+  exists ls, ls2. split; [exact Hp|]. split; [exact Hp2|]. split; [exact Hn|]. split; [exact Hn2|]. split; [rewrite mx_rec_bytes; reflexivity|].
+  apply mx_rec_ok; try assumption; try lia. unfold CLASS_IN; lia.
+Qed.
+
+(** ** SOA records: two names, then twenty bytes *)
+Definition soa_rec (ls : list bytes) (c ttl : N) (ls1 ls2 : list bytes) (tail : bytes) : rec_view * rd_view :=
+  ({| rv_off := 0; rv_labels := ls; rv_name_end := length (wire_of_labels ls); rv_type := TYPE_SOA; rv_class := c; rv_ttl := ttl;
+      rv_rdlen := length (wire_of_labels ls1 ++ wire_of_labels ls2 ++ tail) |}, RdSoa ls1 ls2 tail).
+
+Lemma soa_rec_bytes ls c ttl ls1 ls2 tail :
+  plain_record (soa_rec ls c ttl ls1 ls2 tail) =
+  wire_of_labels ls ++ be16_bytes TYPE_SOA ++ be16_bytes c ++ be32_bytes ttl ++
+  be16_bytes (N.of_nat (length (wire_of_labels ls1 ++ wire_of_labels ls2 ++ tail))) ++ wire_of_labels ls1 ++ wire_of_labels ls2 ++ tail.
+Proof. reflexivity. Qed.
+
+Theorem soa_rec_ok ls c ttl ls1 ls2 tail :
+  Forall label_ok ls -> length (wire_of_labels ls) <= 255 -> bytes_ok (wire_of_labels ls) ->
+  Forall label_ok ls1 -> length (wire_of_labels ls1) <= 255 -> bytes_ok (wire_of_labels ls1) ->
+  Forall label_ok ls2 -> length (wire_of_labels ls2) <= 255 -> bytes_ok (wire_of_labels ls2) ->
+  length tail = 20 -> bytes_ok tail -> (c < 65536)%N -> (ttl < 4294967296)%N ->
+  plain_rr_ok (soa_rec ls c ttl ls1 ls2 tail).
+Proof.
+  intros Hls H255 Hbw Hls1 H255a Hbw1 Hls2 H255b Hbw2 Htl Hbt Hc Httl.
+  set (t := TYPE_SOA). assert (Ht : (t < 65536)%N) by (unfold t, TYPE_SOA; lia).
+  set (W := wire_of_labels ls) in *. set (D1 := wire_of_labels ls1) in *. set (D2 := wire_of_labels ls2) in *.
+  assert (HD1 : 1 <= length D1) by (unfold D1, wire_of_labels; rewrite app_length; cbn [length]; lia).
+  assert (HD2 : 1 <= length D2) by (unfold D2, wire_of_labels; rewrite app_length; cbn [length]; lia).
+  assert (LR : length (D1 ++ D2 ++ tail) = length D1 + length D2 + 20) by (rewrite !app_length, Htl; lia).
+  assert (Hlen : (N.of_nat (length (D1 ++ D2 ++ tail)) < 65536)%N) by lia.
+  split; [reflexivity|].
+  split.
+  { rewrite soa_rec_bytes. fold W D1 D2 t. repeat (apply bytes_ok_app; [first [assumption|apply bytes_ok_be16|apply bytes_ok_be32]|]). exact Hbt. }
+  intros sec seen pre post. cbv zeta. rewrite soa_rec_bytes. fold W D1 D2 t. cbn [fst snd].
+  set (L := be16_bytes (N.of_nat (length (D1 ++ D2 ++ tail)))).
+  set (q := pre ++ (W ++ be16_bytes t ++ be16_bytes c ++ be32_bytes ttl ++ L ++ D1 ++ D2 ++ tail) ++ post).
+  set (ne := length pre + length W).
+  assert (LL : length L = 2) by reflexivity.
+  assert (Hq : q = pre ++ W ++ (be16_bytes t ++ be16_bytes c ++ be32_bytes ttl ++ L ++ D1 ++ D2 ++ tail ++ post))
+    by (unfold q; rewrite <- !app_assoc; reflexivity).
+  assert (Hcn : cname_l q (length pre) ls ne) by (rewrite Hq; apply cname_l_mid; assumption).
+  assert (U_t : u16_at q ne t).
+  { replace q with ((pre ++ W) ++ be16_bytes t ++ (be16_bytes c ++ be32_bytes ttl ++ L ++ D1 ++ D2 ++ tail ++ post))
+      by (unfold q; rewrite <- !app_assoc; reflexivity).
+    replace ne with (length (pre ++ W)) by (rewrite app_length; reflexivity). apply u16_at_mid; exact Ht. }
+  assert (U_c : u16_at q (ne + 2) c).
+  { replace q with ((pre ++ W ++ be16_bytes t) ++ be16_bytes c ++ (be32_bytes ttl ++ L ++ D1 ++ D2 ++ tail ++ post))
+      by (unfold q; rewrite <- !app_assoc; reflexivity).
+    replace (ne + 2) with (length (pre ++ W ++ be16_bytes t)) by (rewrite !app_length; cbn [length be16_bytes]; unfold ne; lia). apply u16_at_mid; exact Hc. }
+  assert (U_ttl : u32_at q (ne + 4) ttl).
+  { replace q with ((pre ++ W ++ be16_bytes t ++ be16_bytes c) ++ be32_bytes ttl ++ (L ++ D1 ++ D2 ++ tail ++ post))
+      by (unfold q; rewrite <- !app_assoc; reflexivity).
+    replace (ne + 4) with (length (pre ++ W ++ be16_bytes t ++ be16_bytes c)) by (rewrite !app_length; cbn [length be16_bytes]; unfold ne; lia). apply u32_at_mid; exact Httl. }
+  assert (U_l : u16_at q (ne + 8) (N.of_nat (length (D1 ++ D2 ++ tail)))).
+  { replace q with ((pre ++ W ++ be16_bytes t ++ be16_bytes c ++ be32_bytes ttl) ++ L ++ (D1 ++ D2 ++ tail ++ post))
+      by (unfold q; rewrite <- !app_assoc; reflexivity).
+    replace (ne + 8) with (length (pre ++ W ++ be16_bytes t ++ be16_bytes c ++ be32_bytes ttl)) by (rewrite !app_length; cbn [length be16_bytes be32_bytes]; unfold ne; lia).
+    apply u16_at_mid; exact Hlen. }
+  assert (Hn1 : cname_l q (ne + 10) ls1 (ne + 10 + length D1)).
+  { replace q with ((pre ++ W ++ be16_bytes t ++ be16_bytes c ++ be32_bytes ttl ++ L) ++ D1 ++ (D2 ++ tail ++ post))
+      by (unfold q; rewrite <- !app_assoc; reflexivity).
+    replace (ne + 10) with (length (pre ++ W ++ be16_bytes t ++ be16_bytes c ++ be32_bytes ttl ++ L))
+      by (rewrite !app_length, LL; cbn [length be16_bytes be32_bytes]; unfold ne; lia).
+    apply cname_l_mid; assumption. }
+  assert (Hn2 : cname_l q (ne + 10 + length D1) ls2 (ne + 10 + length D1 + length D2)).
+  { replace q with ((pre ++ W ++ be16_bytes t ++ be16_bytes c ++ be32_bytes ttl ++ L ++ D1) ++ D2 ++ (tail ++ post))
+      by (unfold q; rewrite <- !app_assoc; reflexivity).
+    replace (ne + 10 + length D1) with (length (pre ++ W ++ be16_bytes t ++ be16_bytes c ++ be32_bytes ttl ++ L ++ D1))
+      by (rewrite !app_length, LL; cbn [length be16_bytes be32_bytes]; unfold ne; lia).
+    apply cname_l_mid; assumption. }
+  assert (Lq : length q = ne + 10 + length D1 + length D2 + 20 + length post).
+  { unfold q, ne. rewrite !app_length, LL, Htl. cbn [length be16_bytes be32_bytes]. lia. }
+  assert (Le : length pre + length (W ++ be16_bytes t ++ be16_bytes c ++ be32_bytes ttl ++ L ++ D1 ++ D2 ++ tail) = ne + 10 + (length D1 + length D2 + 20)).
+  { unfold ne. rewrite !app_length, LL, Htl. cbn [length be16_bytes be32_bytes]. lia. }
+  rewrite Le.
+  assert (Em : ne + 10 + (length D1 + length D2 + 20) - 20 = ne + 10 + length D1 + length D2) by lia.
+  split.
+  { exists ne, t, (N.of_nat (length (D1 ++ D2 ++ tail))). split; [exists ls; exact Hcn|]. split; [lia|]. split; [exact U_t|]. split; [exact U_l|].
+    rewrite Nat2N.id, LR. split; [reflexivity|]. split; [lia|]. change ((t =? TYPE_OPT)%N) with false. cbv iota. split; [reflexivity|].
+    unfold rdata_wf. change (is_name_type t) with false. change ((t =? TYPE_MX)%N) with false. change ((t =? TYPE_SOA)%N) with true. cbv iota.
+    split; [lia|]. exists (ne + 10 + length D1). split; [exists ls1; exact Hn1|]. exists ls2. rewrite Em. exact Hn2. }
+  split.
+  { unfold record_at, rv_at, soa_rec. cbn [fst snd rv_off rv_labels rv_name_end rv_type rv_class rv_ttl rv_rdlen plain_rdata]. fold W D1 D2 t. fold ne.
+    rewrite LR. split; [exact Hcn|]. split; [exact U_t|]. split; [exact U_c|]. split; [exact U_ttl|].
+    split; [rewrite <- LR; exact U_l|]. split; [reflexivity|]. split; [lia|]. split; intros E; discriminate E. }
+  unfold rdata_at, rv_at, soa_rec. cbn [fst snd rv_off rv_labels rv_name_end rv_type rv_class rv_ttl rv_rdlen plain_rdata]. fold W D1 D2 t. fold ne.
+  rewrite LR. split; [reflexivity|]. split; [reflexivity|]. split; [lia|].
+  exists (ne + 10 + length D1). split; [exact Hn1|]. rewrite Em. split; [exact Hn2|].
+  replace q with ((pre ++ W ++ be16_bytes t ++ be16_bytes c ++ be32_bytes ttl ++ L ++ D1 ++ D2) ++ tail ++ post)
+    by (unfold q; rewrite <- !app_assoc; reflexivity).
+  replace (ne + 10 + length D1 + length D2) with (length (pre ++ W ++ be16_bytes t ++ be16_bytes c ++ be32_bytes ttl ++ L ++ D1 ++ D2))
+    by (rewrite !app_length, LL; cbn [length be16_bytes be32_bytes]; unfold ne; lia).
+  rewrite skipn_app_exact. symmetry. rewrite <- Htl. apply firstn_app_exact.
+Qed.
+
+Theorem build_soa_is_plain_record : forall name ttl primary_ns contact ts refresh retry auth neg rr,
+  build_soa name ttl primary_ns contact ts refresh retry auth neg = Ok rr -> (ttl < 4294967296)%N ->
+  exists ls ls1 ls2, Forall label_ok ls /\ Forall label_ok ls1 /\ Forall label_ok ls2 /\
+    (name = dotted ls \/ name = dots ls \/ (name = [46%N] /\ ls = [])) /\
+    (primary_ns = dotted ls1 \/ primary_ns = dots ls1 \/ (primary_ns = [46%N] /\ ls1 = [])) /\
+    (contact = dotted ls2 \/ contact = dots ls2 \/ (contact = [46%N] /\ ls2 = [])) /\
+    let tail := be32_bytes ts ++ be32_bytes refresh ++ be32_bytes retry ++ be32_bytes auth ++ be32_bytes neg in
+    rr = plain_record (soa_rec ls CLASS_IN ttl ls1 ls2 tail) /\ plain_rr_ok (soa_rec ls CLASS_IN ttl ls1 ls2 tail).
+Proof.
+  intros name ttl primary_ns contact ts refresh retry auth neg rr H Httl. unfold build_soa in H.
+  destruct (copy_raw_name_from_str [] primary_ns None) as [rd1| |] eqn:E1; cbn [bind] in H; try discriminate.
+  destruct (copy_raw_name_from_str rd1 contact None) as [rd2| |] eqn:E2; cbn [bind] in H; try discriminate.
+  unfold rr_new in H. match type of H with (if ?c then _ else _) = _ => destruct c eqn:El end; [discriminate|].
+  destruct (copy_raw_name_from_str [] name None) as [pk| |] eqn:Ew; cbn [bind] in H; try discriminate. inversion H; subst rr. clear H.
+  destruct (text_to_labels [] name pk Ew) as (ls & Hp & Epk & Hl & Hb & Hn). cbn [app] in Epk. subst pk.
+  destruct (text_to_labels [] primary_ns rd1 E1) as (ls1 & Hp1 & Er1 & Hl1 & Hb1 & Hn1). cbn [app] in Er1. subst rd1.
+  destruct (text_to_labels _ contact rd2 E2) as (ls2 & Hp2 & -> & Hl2 & Hb2 & Hn2).
+  exists ls, ls1, ls2. split; [exact Hp|]. split; [exact Hp1|]. split; [exact Hp2|]. split; [exact Hn|]. split; [exact Hn1|]. split; [exact Hn2|].
+  cbv zeta. split; [rewrite soa_rec_bytes, <- !app_assoc; reflexivity|].
+  apply soa_rec_ok; try assumption; try lia; [reflexivity| |unfold CLASS_IN; lia].
+  repeat (apply bytes_ok_app; [apply bytes_ok_be32|]). apply bytes_ok_be32.
+Qed.
+
+(** ** TXT and DS through their builders *)
+Lemma chunks255_bytes_ok : forall fuel txt, bytes_ok txt -> bytes_ok (chunks255 fuel txt).
+Proof.
+  induction fuel as [|fuel IH]; intros txt Hb; cbn [chunks255]; [constructor|].
+  destruct txt as [|c0 txt0]; [constructor|]. set (txt := c0 :: txt0) in *.
+  assert (Hsplit : bytes_ok (firstn 255 txt) /\ bytes_ok (skipn 255 txt)).
+  { unfold bytes_ok in *. rewrite <- (firstn_skipn 255 txt) in Hb. apply Forall_app in Hb. exact Hb. }
+  destruct Hsplit as [H1 H2].
+  apply bytes_ok_app; [|apply bytes_ok_app; [exact H1|exact (IH _ H2)]].
+  constructor; [|constructor]. pose proof (firstn_le_length 255 txt). lia.
+Qed.
+
+Theorem build_txt_is_plain_record : forall name ttl txt rr,
+  build_txt name ttl txt = Ok rr -> bytes_ok txt -> (ttl < 4294967296)%N ->
+  exists ls, Forall label_ok ls /\ (name = dotted ls \/ name = dots ls \/ (name = [46%N] /\ ls = [])) /\
+    let rd := chunks255 (length txt + 1) txt in
+    rr = plain_record (raw_rec ls TYPE_TXT CLASS_IN ttl rd) /\ plain_rr_ok (raw_rec ls TYPE_TXT CLASS_IN ttl rd).
+Proof.
+  intros name ttl txt rr H Hb Httl. unfold build_txt in H. destruct (TXT_MAX <? length txt); [discriminate|].
+  apply (rr_new_is_plain_record name ttl CLASS_IN TYPE_TXT _ rr H (chunks255_bytes_ok _ _ Hb)); try (unfold TYPE_TXT, CLASS_IN; lia); try exact Httl;
+    try (intros E; discriminate E).
+  unfold raw_type. repeat split; try reflexivity; intros E; discriminate E.
+Qed.
+
+Theorem build_ds_is_plain_record : forall name ttl key_tag alg dtype digest rr,
+  build_ds name ttl key_tag alg dtype digest = Ok rr -> bytes_ok digest -> (alg < 256)%N -> (dtype < 256)%N -> (ttl < 4294967296)%N ->
+  exists ls, Forall label_ok ls /\ (name = dotted ls \/ name = dots ls \/ (name = [46%N] /\ ls = [])) /\
+    let rd := be16_bytes key_tag ++ [alg; dtype] ++ digest in
+    rr = plain_record (raw_rec ls TYPE_DS CLASS_IN ttl rd) /\ plain_rr_ok (raw_rec ls TYPE_DS CLASS_IN ttl rd).
+Proof.
+  intros name ttl key_tag alg dtype digest rr H Hb Ha Hd Httl. unfold build_ds in H.
+  assert (Hrd : bytes_ok (be16_bytes key_tag ++ [alg; dtype] ++ digest)).
+  { apply bytes_ok_app; [apply bytes_ok_be16|]. apply bytes_ok_app; [|exact Hb]. constructor; [exact Ha|]. constructor; [exact Hd|constructor]. }
+  apply (rr_new_is_plain_record name ttl CLASS_IN TYPE_DS _ rr H Hrd); try (unfold TYPE_DS, CLASS_IN; lia); try exact Httl;
+    try (intros E; discriminate E).
+  unfold raw_type. repeat split; try reflexivity; intros E; discriminate E.
+Qed.
